@@ -108,7 +108,7 @@ def fam_c10(rnd, tier):
 
 @family("C11")
 def fam_c11(rnd, tier):
-    n = 800 if tier == "quick" else 20000
+    n = 800 if tier == "quick" else 5000
     return [(f"c11:{i}", gen.program_c11(rnd), ["canon"]) for i in range(n)]
 
 
